@@ -69,7 +69,8 @@ int main() {
     std::string out = "bad-op";
     g_log.clear();
     try {
-      const std::string &f = w[0];
+      const bool on_range = w[0].rfind("R:", 0) == 0;     // pass a range object (not a container) and use it twice
+      const std::string f = on_range ? w[0].substr(2) : w[0];
       bool traced = false, is_str = false;
       std::string expr;
       // the input container lives in `inp` so that we can look at it afterwards
@@ -95,17 +96,33 @@ int main() {
       else if (f == "min" || f == "max") expr = f + "(" + w.at(1) + ", " + w.at(2) + ")";
       else if (f == "odd" || f == "even") expr = f + "(" + w.at(1) + ")";
       else if (is_str) expr = "inp." + f + "()";
+      if (on_range) {
+        chai.eval("var rng = range(inp)");
+        size_t pos = 0;
+        while ((pos = expr.find("inp", pos)) != std::string::npos) { expr.replace(pos, 3, "rng"); pos += 3; }
+      }
       std::string res;
       try {
         Boxed_Value r = chai.eval(expr);
         res = is_str ? codes(boxed_cast<std::string>(r)) : show(r);
+        if (on_range) {
+          g_log.push_back(-777);    // separator between the two uses in the trace
+          Boxed_Value r2 = chai.eval(expr);
+          res += "|" + show(r2);
+        }
       } catch (const chaiscript::exception::eval_error &e) { res = "error"; if (getenv("VERIF_DEBUG")) res += ":" + e.pretty_print();
       } catch (const std::exception &) { res = "error"; }
       out = "res=" + res;
       if (traced) {
-        std::string t;
-        for (auto x : g_log) { if (!t.empty()) t += ","; t += std::to_string(x); }
-        out += " trace=" + (t.empty() ? std::string("-") : t);
+        std::string t, seg;
+        bool any = false;
+        for (auto x : g_log) {
+          if (x == -777) { t += (any ? seg : std::string("-")) + "|"; seg.clear(); any = false; continue; }
+          if (any) seg += ",";
+          seg += std::to_string(x); any = true;
+        }
+        t += any ? seg : std::string("-");
+        out += " trace=" + t;
       }
       const std::string after = is_str ? codes(chai.eval<std::string>("inp")) : show(chai.eval("inp"));
       if (after != before) out += " INPUT-CHANGED";
